@@ -158,3 +158,117 @@ contract('c:_attribute_blob_find_first', cfile=CFB,
              'C09.attributes.none_only_if_node_has_none': 'implies(result is None, forall_range(0, info.typelib.data.n_attributes, '
                                                           'lambda k: __ptradd(table_first(info), k).offset != blob_offset))',
          })
+
+
+# ---- interfaces (giinterfaceinfo.c): same scheme against the InterfaceBlob layout --------------------------------------
+CFI = 'girepository/giinterfaceinfo.c'
+
+
+class InterfaceBlob(Buffer): pass
+
+
+GIInterfaceInfo = GIRealInfo
+UNIVERSE.register(InterfaceBlob)
+_asn(_sys.modules[__name__])
+_schema(Header, interface_blob_size='int')
+_schema(InterfaceBlob, n_prerequisites='int', n_properties='int', n_methods='int', n_signals='int', n_vfuncs='int',
+        n_constants='int')
+INFO_TYPE['INTERFACE'] = 8
+
+
+def iface_section_start(info, section):
+    """start of a variable-length section of an InterfaceBlob: the fixed part is followed by the prerequisites (16-bit entries,
+    padded to a multiple of 4 bytes), the properties, methods, signals, virtual functions and constants, in this order"""
+    h = info.typelib.data
+    b = blob_of(info)
+    off = info.offset + h.interface_blob_size + (b.n_prerequisites + b.n_prerequisites % 2) * 2
+    if section == 'properties':
+        return off
+    off = off + b.n_properties * h.property_blob_size
+    if section == 'methods':
+        return off
+    off = off + b.n_methods * h.function_blob_size
+    if section == 'signals':
+        return off
+    off = off + b.n_signals * h.signal_blob_size
+    if section == 'vfuncs':
+        return off
+    off = off + b.n_vfuncs * h.vfunc_blob_size
+    if section == 'constants':
+        return off
+    return None
+
+
+WFI = ['isinstance(info.typelib.data, Header)', 'isinstance(blob_of(info), InterfaceBlob)']
+for _fn, _section, _size, _ty in (('g_interface_info_get_property', 'properties', 'property_blob_size', 'PROPERTY'),
+                                  ('g_interface_info_get_method', 'methods', 'function_blob_size', 'FUNCTION'),
+                                  ('g_interface_info_get_signal', 'signals', 'signal_blob_size', 'SIGNAL'),
+                                  ('g_interface_info_get_vfunc', 'vfuncs', 'vfunc_blob_size', 'VFUNC'),
+                                  ('g_interface_info_get_constant', 'constants', 'constant_blob_size', 'CONSTANT')):
+    contract('c:' + _fn, cfile=CFI, params={'info': 'GIRealInfo?', 'n': 'int'}, returns='GIRealInfo?', props=('C09',),
+             requires=['implies(info is not None, %s)' % ' and '.join(WFI)],
+             ensures={
+                 'C09.%s.section_and_index' % _fn: "implies(info is not None and info.type == %d, result is not None and "
+                                                   "result.offset == iface_section_start(info, '%s') + n * info.typelib.data.%s and "
+                                                   "result.type == %d and result.typelib is info.typelib)"
+                                                   % (INFO_TYPE['INTERFACE'], _section, _size, INFO_TYPE[_ty]),
+                 'C09.%s.rejects_other_infos' % _fn: "implies(info is None or info.type != %d, result is None)" % INFO_TYPE['INTERFACE'],
+             })
+
+
+# ---- structs, unions, enumerations (gistructinfo.c, giunioninfo.c, gienuminfo.c) ----------------------------------------
+class StructBlob(Buffer): pass
+class UnionBlob(Buffer): pass
+class EnumBlob(Buffer): pass
+
+
+GIStructInfo = GIUnionInfo = GIEnumInfo = GIValueInfo = GIRealInfo
+for _c in (StructBlob, UnionBlob, EnumBlob):
+    UNIVERSE.register(_c)
+_asn(_sys.modules[__name__])
+_schema(Header, struct_blob_size='int', union_blob_size='int', enum_blob_size='int', value_blob_size='int')
+_schema(StructBlob, n_fields='int', n_methods='int')
+_schema(UnionBlob, n_fields='int', n_functions='int')
+_schema(EnumBlob, n_values='int', n_methods='int')
+INFO_TYPE.update({'ENUM': 5, 'FLAGS': 6, 'UNION': 11, 'VALUE': 12})
+CFS, CFU, CFE = 'girepository/gistructinfo.c', 'girepository/giunioninfo.c', 'girepository/gienuminfo.c'
+HDR = 'isinstance(info.typelib.data, Header)'
+
+contract('c:g_struct_get_field_offset', cfile=CFS, params={'info': 'GIRealInfo', 'n': 'int'}, returns='int', props=('C09',),
+         requires=[HDR, 'n >= 0'],
+         loops={1: {'invariant': ['0 <= i and i <= n', "offset == FOLD('SOFF', i)"],
+                    'modifies': [], 'var_types': {'i': 'int', 'offset': 'int', 'field_blob': 'FieldBlob'},
+                    'folds': {'SOFF': {'type': 'int', 'init': 'info.offset + info.typelib.data.struct_blob_size',
+                                       'step': "ACC + info.typelib.data.field_blob_size + "
+                                               "(info.typelib.data.callback_blob_size if "
+                                               "__elemref(info.typelib.data, ACC).has_embedded_type != 0 else 0)"}},
+                    'index': 'i'}},
+         ensures={'C09.struct_field_offset.walks_fields_and_embedded_callbacks': "result == FOLD('SOFF', n)"})
+
+contract('c:g_union_info_get_field', cfile=CFU, params={'info': 'GIRealInfo', 'n': 'int'}, returns='GIRealInfo', props=('C09',),
+         requires=[HDR],
+         ensures={'C09.g_union_info_get_field.section_and_index':
+                  'result.offset == info.offset + info.typelib.data.union_blob_size + n * info.typelib.data.field_blob_size and '
+                  'result.type == %d and result.typelib is info.typelib' % INFO_TYPE['FIELD']})
+contract('c:g_union_info_get_method', cfile=CFU, params={'info': 'GIRealInfo', 'n': 'int'}, returns='GIRealInfo', props=('C09',),
+         requires=[HDR, 'isinstance(blob_of(info), UnionBlob)'],
+         ensures={'C09.g_union_info_get_method.section_and_index':
+                  'result.offset == info.offset + info.typelib.data.union_blob_size + '
+                  'blob_of(info).n_fields * info.typelib.data.field_blob_size + n * info.typelib.data.function_blob_size and '
+                  'result.type == %d and result.typelib is info.typelib' % INFO_TYPE['FUNCTION']})
+ENUMISH = '(info.type == %d or info.type == %d)' % (INFO_TYPE['ENUM'], INFO_TYPE['FLAGS'])
+contract('c:g_enum_info_get_value', cfile=CFE, params={'info': 'GIRealInfo?', 'n': 'int'}, returns='GIRealInfo?', props=('C09',),
+         requires=['implies(info is not None, %s)' % HDR],
+         ensures={'C09.g_enum_info_get_value.section_and_index':
+                  'implies(info is not None and %s, result is not None and '
+                  'result.offset == info.offset + info.typelib.data.enum_blob_size + n * info.typelib.data.value_blob_size and '
+                  'result.type == %d and result.typelib is info.typelib)' % (ENUMISH, INFO_TYPE['VALUE']),
+                  'C09.g_enum_info_get_value.rejects_other_infos': 'implies(info is None or not %s, result is None)' % ENUMISH})
+contract('c:g_enum_info_get_method', cfile=CFE, params={'info': 'GIRealInfo?', 'n': 'int'}, returns='GIRealInfo?', props=('C09',),
+         requires=['implies(info is not None, %s and isinstance(blob_of(info), EnumBlob))' % HDR],
+         ensures={'C09.g_enum_info_get_method.section_and_index':
+                  'implies(info is not None and %s, result is not None and '
+                  'result.offset == info.offset + info.typelib.data.enum_blob_size + '
+                  'blob_of(info).n_values * info.typelib.data.value_blob_size + n * info.typelib.data.function_blob_size and '
+                  'result.type == %d and result.typelib is info.typelib)' % (ENUMISH, INFO_TYPE['FUNCTION']),
+                  'C09.g_enum_info_get_method.rejects_other_infos': 'implies(info is None or not %s, result is None)' % ENUMISH})
